@@ -104,6 +104,31 @@ def batches (removed : Nat → Bool) (max : Nat) : Nat → List SChange → List
     let r := nextBatch removed max rest
     if r.1.changes.isEmpty then [] else r.1 :: batches removed max f r.2
 
+/-! ### a responder that keeps changing while it streams
+
+`HandleStreamRequest` builds the loader under the tree lock and calls `NextBatch` after releasing it: between the calls
+the responder may store further changes.  They are not in the iterator's cache; `NextBatch` passes over them (the
+cursor moves, neither the batch nor the running heads are touched). -/
+
+/-- `NextBatch` over the CURRENT stored sequence: entries that are not in the iterator's cache are passed over -/
+def scanC (inCache removed : Nat → Bool) (max : Nat) :
+    List SChange → Nat → List SChange → List Nat → Batch × List SChange
+  | [], _, b, h => (⟨b, h⟩, [])
+  | c :: rest, cur, b, h =>
+    if !inCache c.id then scanC inCache removed max rest cur b h
+    else if removed c.id then scanC inCache removed max rest cur b (updHeads h c)
+    else if cur + c.size ≥ max ∧ !b.isEmpty then (⟨b, h⟩, c :: rest)
+    else scanC inCache removed max rest (cur + c.size) (b ++ [c]) (updHeads h c)
+
+/-- the streaming loop with an adversary `ins` that stores further (foreign) changes into the remaining sequence
+before every call -/
+def batchesI (inCache removed : Nat → Bool) (max : Nat) (ins : Nat → List SChange → List SChange) :
+    Nat → Nat → List SChange → List Batch
+  | 0, _, _ => []
+  | f + 1, i, rest =>
+    let r := scanC inCache removed max (ins i rest) 0 [] []
+    if r.1.changes.isEmpty then [] else r.1 :: batchesI inCache removed max ins f (i + 1) r.2
+
 /-- the whole answer to a request: `cache` = stored sequence from the common snapshot on -/
 def respond (cache : List SChange) (theirHeads : List Nat) (max : Nat) : List Batch :=
   let rm := removedSet cache theirHeads
